@@ -26,6 +26,7 @@ META = dict(
 
 IDS = ["aa:bb:cc:dd:ee:01", "aa:bb:cc:dd:ee:02"]
 DEBOUNCE_MAX = 2.0
+START_MAX = 5.0  # start-up may resolve records over the network first (3 s per record in the code)
 
 
 # ------------------------------------------------------------------ advertisement builders
@@ -107,6 +108,9 @@ class H(explore.Harness):
                     return self._src is not None
 
                 async def async_request(self, zc, timeout, *a, **k):
+                    import asyncio as _a
+
+                    await _a.sleep(getattr(h, "zc_incomplete", {}).get(self.name, 0.0))  # the network round trip for a record known by name only
                     return self.load_from_cache(zc)
 
                 def __getattr__(self, item):
@@ -138,12 +142,58 @@ class H(explore.Harness):
         else:
             self.target = self.ctrls[self.kind]
         if p.get("browser"):
-            class _AZC:
-                zeroconf = object()
+            h = self
 
-            for c in self.ctrls.values():
+            class _Signal:
+                def __init__(self):
+                    self.handlers = []
+
+                def register_handler(self, fn):
+                    self.handlers.append(fn)
+
+                def unregister_handler(self, fn):
+                    self.handlers.remove(fn)
+
+            class _Browser:
+                def __init__(self, hap):
+                    self.types = [hap]
+                    self.service_state_changed = _Signal()
+
+            class _Rec:
+                def __init__(self, alias):
+                    self.alias = alias
+
+            class _Cache:
+                def async_all_by_details(self_, name, type_, class_):
+                    # PTR records of that type known at this instant (complete or not)
+                    return [_Rec(n) for n in sorted(set(h.zc_cache) | set(h.zc_incomplete)) if n.endswith(name)]
+
+            class _ZC:
+                cache = _Cache()
+                listeners = []
+
+            class _AZC:
+                zeroconf = _ZC()
+
+            self.browsers = {}
+            self.zc_incomplete = {}
+            self.started = {}
+            for via, c in self.ctrls.items():
                 if hasattr(c, "_resolve_later"):
                     c._async_zeroconf_instance = _AZC()
+                    self.browsers[via] = _Browser(c.hap_type)
+            self._orig_find = self._zmod.find_brower_for_hap_type
+            self._zmod.find_brower_for_hap_type = lambda azc, hap: next(b for b in self.browsers.values() if hap in b.types)
+            self._orig_isb = None
+            if p.get("start_event"):
+                # another accessory is known to zeroconf by name only: resolving it at start-up takes a network round trip
+                for via, c in self.ctrls.items():
+                    if via in self.browsers:
+                        self.zc_incomplete[f"Slow.{c.hap_type}"] = 0.3
+            else:
+                for via in self.browsers:
+                    self.browsers[via].service_state_changed.register_handler(self.ctrls[via]._handle_service)
+                    self.started[via] = "done"
         if self.mode != "none":
             conn = {"ip": "IP", "coap": "CoAP", "ble": "BLE"}[self.kind]
             self.target.load_pairing("alias", pairing_data(IDS[0], conn))
@@ -205,15 +255,19 @@ class H(explore.Harness):
             props, v = self._props(dev_id, 0)
             self.zc_cache[name] = svc_info(hap, dev_id, props=props, name=f"Acc{IDS.index(dev_id)}")
             self.may_find.add(dev_id)  # from now on a waiter may legitimately complete (the record is in the cache)
-            if name not in self.model_resolve:
+            if name not in self.model_resolve and via in self.started:
                 # the browser path may debounce: the record MUST have been processed DEBOUNCE_MAX after the state change (the code uses 0.5 s;
-                # the property does not fix the delay, so only an upper bound is demanded and earlier completion is fine)
+                # the property does not fix the delay, so only an upper bound is demanded and earlier completion is fine).  Only once the
+                # controller was started: before that the record just sits in the zeroconf cache and start-up has to pick it up.
                 self.model_resolve[name] = (now + DEBOUNCE_MAX, dev_id, via, v)
-            c._handle_service(None, hap, name, ServiceStateChange.Added)
+            for fn in list(self.browsers[via].service_state_changed.handlers):
+                fn(None, hap, name, ServiceStateChange.Added)
         else:
             # goodbye: the pending resolution (if any) is dropped; a later Added starts afresh
             self.model_resolve.pop(name, None)
-            c._handle_service(None, hap, name, ServiceStateChange.Removed)
+            self.zc_cache.pop(name, None) if via not in self.started else None
+            for fn in list(self.browsers[via].service_state_changed.handlers):
+                fn(None, hap, name, ServiceStateChange.Removed)
 
     def _model_resolutions_due(self):
         now = self.loop.time()
@@ -243,6 +297,9 @@ class H(explore.Harness):
                 ev.append(f"adv:{i}:{via}")
                 ev.append(f"bad:{i}:{via}")
         if self.p.get("browser"):
+            for via in vias:
+                if via != "ble" and via not in self.started:
+                    ev.append(f"start:{via}")
             for i in range(self.p.get("ids", 1)):
                 for via in vias:
                     if via != "ble":
@@ -305,6 +362,15 @@ class H(explore.Harness):
             self.loop.run_until_idle()
             if t.done() and not t.cancelled() and t.exception() is not None:
                 self.viol.append((f"pairing-shutdown-raises:{type(t.exception()).__name__}", {"err": str(t.exception())[:160]}))
+        elif k == "start":
+            via = parts[1]
+            self.started[via] = "running"
+            # whatever is in the zeroconf cache when start-up begins has to be picked up by it: START_MAX after it at the latest
+            for name, info in list(self.zc_cache.items()):
+                if name.endswith(self.ctrls[via].hap_type) and name not in self.model_resolve:
+                    dev_id = next(i for i in IDS if f"Acc{IDS.index(i)}." in name)
+                    self.model_resolve[name] = (now + START_MAX, dev_id, via, self._props(dev_id, 0)[1])
+            self.start_tasks = getattr(self, "start_tasks", []) + [self.loop.create_task(self.ctrls[via].async_start())]
         elif k in ("zc-add", "zc-rm"):
             try:
                 self._zc(k if k == "zc-add" else "zc-rm", IDS[int(parts[1])], parts[2])
@@ -402,7 +468,7 @@ class H(explore.Harness):
         from vt import canon as _c
 
         generic = tuple(_c.canon(c, depth=2, skip=("_char_cache", "_loop", "_async_zeroconf_instance", "pairings", "aliases", "discoveries", "transports", "_tasks")) for c in self.ctrls.values())
-        model = (getattr(self, "pairing_shut", False), tuple(sorted(self.may_find)), tuple(sorted((k, v % 3) for k, v in self.nadv.items())), tuple(sorted((k, tuple(sorted(v.items()))) for k, v in self.last_adv.items())), tuple(sorted(self.zc_cache)),
+        model = (tuple(sorted(getattr(self, "started", {}).items())), tuple(t.done() for t in getattr(self, "start_tasks", [])), getattr(self, "pairing_shut", False), tuple(sorted(self.may_find)), tuple(sorted((k, v % 3) for k, v in self.nadv.items())), tuple(sorted((k, tuple(sorted(v.items()))) for k, v in self.last_adv.items())), tuple(sorted(self.zc_cache)),
                  tuple(sorted((n, round(d[0] - self.loop.time(), 6)) for n, d in self.model_resolve.items())))
         return (model, ws, timers, tuple(sorted(self.discovered)), regs, len(self.loop._ready), self.preempt, generic, tuple(sorted(k for c in self.ctrls.values() for k in c.discoveries)))
 
@@ -423,6 +489,8 @@ class H(explore.Harness):
             self._patch.__exit__(None, None, None)
             if getattr(self, "_zmod", None) is not None:
                 self._zmod.AsyncServiceInfo = self._orig_info
+                if getattr(self, "_orig_find", None) is not None:
+                    self._zmod.find_brower_for_hap_type = self._orig_find
 
 
 def case_explore(p):
@@ -606,6 +674,8 @@ def run(ctx):
         # state changes through the zeroconf browser callback (debounced resolution, goodbye inside the debounce window)
         dict(kind="ip", pairing="none", waiters=1, ids=1, P=0, browser=True, timeouts=(5.0,)),
         dict(kind="coap", pairing="none", waiters=1, ids=1, P=0, browser=True, timeouts=(1.0,)),
+        # controller start-up as an event: records already in the cache, records announced while start-up resolves another one over the network
+        dict(kind="ip", pairing="none", waiters=1, ids=1, P=0, browser=True, start_event=True, timeouts=(20.0,)),
     ]
     if not quick:
         configs += [dict(kind="ip", pairing="cached", waiters=2, ids=1, P=1, browser=True, variants=True, timeouts=(0.75, 5.0)), dict(kind="agg", pairing="none", waiters=1, ids=1, P=0, variants=True),
